@@ -653,6 +653,10 @@ func checkTaskExecutor(r *Reporter, p *Prog) {
 			r.Pass("taskexec/scheduled-through-bookkeeping", pkg+".TaskExecutor", p.posStr(fd.Pos()), "only ExecuteAt schedules on the embedded executor")
 		}
 	}
+	// cancel-the-old, schedule-the-new and register-the-new are ONE step per identifier: one critical
+	// section of the identifier mutex per operation (two overlapping re-schedules would otherwise both
+	// pass the cancel step and leave two pending tasks, one of them unknown to Cancel)
+	checkAtomicOperations(r, p, "atomic/one-section-per-operation", pkg, "TaskExecutor", "queuedElementsMutex")
 	f := newFuncCFG(p, info, fd.Body, key)
 	isCancel := func(n ast.Node) bool {
 		cl, ok := n.(*ast.CallExpr)
